@@ -26,7 +26,7 @@ XS = 'sdc11073.xml_types.xml_structure'
 BASE = f'{XS}._XmlStructureBaseProperty'
 IMMUTABLE_CALLS = {'Decimal', 'QName', 'frozenset', 'tuple', 'str', 'int', 'float', 'bool'}
 DATA_BASES = ('sdc11073.mdib.containerbase.ContainerBase', 'sdc11073.xml_types.basetypes.XMLTypeBase')
-METHODS = ('__get__', 'get_py_value_from_node', 'update_from_node', 'init_instance_data')
+METHODS = ('__get__', '__set__', 'get_py_value_from_node', 'update_from_node', 'init_instance_data')
 
 
 def is_mutable_value(e) -> bool:
@@ -54,8 +54,12 @@ def escapes(fi):
     out = []
     assigns = local_assignments(fi.node)
 
-    def raw_kinds(e):
+    def raw_kinds(e, _seen=None):
         ks = []
+        _seen = set() if _seen is None else _seen
+        if id(e) in _seen:
+            return ks   # `value = list(value)`: the local is defined in terms of itself
+        _seen.add(id(e))
         for r in roots(e, assigns):
             k = source_kind(r)
             if k:
@@ -63,10 +67,10 @@ def escapes(fi):
             elif isinstance(r, ast.Call) and call_name(r) in ('copy', 'list', 'dict') and r.args and \
                     not (call_name(r) == 'copy' and unparse(r.func) == 'copy.deepcopy'):
                 # copy.copy(x) / list(x) / dict(x): one level only, nested members of the default stay shared
-                ks += raw_kinds(r.args[0])
+                ks += raw_kinds(r.args[0], _seen)
             elif isinstance(r, ast.BoolOp):
                 for v in r.values:
-                    ks += raw_kinds(v)
+                    ks += raw_kinds(v, _seen)
         return ks
     for n in walk_no_nested(fi.node):
         if isinstance(n, ast.Return) and n.value is not None:
@@ -76,17 +80,18 @@ def escapes(fi):
                 isinstance(n.args[0], ast.Name) and n.args[0].id == 'instance':
             for k in raw_kinds(n.args[2]):
                 out.append((k, f'setattr(instance, ..., {unparse(n.args[2])})', n))
+        if isinstance(n, ast.Call) and call_name(n) == '__set__' and len(n.args) >= 2:
+            # super().__set__(instance, value): the base class stores the value on the instance
+            for k in raw_kinds(n.args[-1]):
+                out.append((k, f'__set__(instance, {unparse(n.args[-1])})', n))
     return out
 
 
-def run(ctx):  # noqa: C901, PLR0912
+def defaults_reach_instances_copied(ctx, rule):
+    """C12.R1 (shared with C05: a value parsed from a document in which the element is absent belongs to the parsed object)."""
     repo = ctx.repo
-    ctx.rule('C12.R1', 'NO-ESCAPE: class-level default/implied objects reach instances only through copy.deepcopy '
-                       '(armed where a declaration passes a mutable value)')
-    ctx.rule('C12.R2', 'no mutable class attributes / default arguments on data classes; lazy lists live on the instance')
-    ctx.rule('C12.R3', 'mk_copy is a deep copy')
     desc_classes = [q for q in repo.classes if q.startswith(XS + '.') and BASE in repo.mro(q)]
-    ctx.floor('C12.R1', len(desc_classes), 55, 'property descriptor classes')
+    ctx.floor(rule, len(desc_classes), 55, 'property descriptor classes')
     simple = {q.rsplit('.', 1)[1]: q for q in desc_classes}
 
     # declarations: every call of a descriptor class with default_py_value / implied_py_value
@@ -102,9 +107,9 @@ def run(ctx):  # noqa: C901, PLR0912
                         if kw.arg in ('default_py_value', 'implied_py_value'):
                             decls.append((simple[nm], kw.arg.split('_')[0], kw.value,
                                           f'{repo.rel(mod.path)}:{n.lineno}'))
-    ctx.floor('C12.R1', n_all, 450, 'property declarations (descriptor constructor calls)')
+    ctx.floor(rule, n_all, 450, 'property declarations (descriptor constructor calls)')
     mutable = [d for d in decls if is_mutable_value(d[2])]
-    ctx.floor('C12.R1', len(mutable), 15, 'declarations with a mutable default/implied value')
+    ctx.floor(rule, len(mutable), 15, 'declarations with a mutable default/implied value')
     # positional defaults would be invisible to the keyword scan: make sure there are none
     for q in desc_classes:
         init = repo.resolve_method(q, '__init__')
@@ -153,14 +158,14 @@ def run(ctx):  # noqa: C901, PLR0912
     n_esc = 0
     for fq, (fi, escs, users) in sorted(seen.items()):
         if not escs:
-            ctx.ob('C12.R1', 'no raw class-level value', True,
+            ctx.ob(rule, 'no raw class-level value', True,
                    f'{fi.cls.name}.{fi.name}: no class-level default/implied value reaches an instance un-copied',
                    fi=fi, witness={'used_by': len(users)})
             continue
         for kind, sink, node in escs:
             n_esc += 1
             armed = [d for d in mutable if d[0] in users and d[1] == kind]
-            ctx.ob('C12.R1', f'{kind} -> {sink}', not armed,
+            ctx.ob(rule, f'{kind} -> {sink}', not armed,
                    f'{fi.cls.name}.{fi.name}: the {kind} value escapes un-copied, but every declaration using this '
                    f'method passes an immutable {kind} value' if not armed else
                    f'{fi.cls.name}.{fi.name}: the class-level {kind} object is handed to the instance without a copy '
@@ -168,7 +173,17 @@ def run(ctx):  # noqa: C901, PLR0912
                    f'{armed[0][3]}): changing it on one instance changes the default of every later instance',
                    fi=fi, node=node, witness={'mutable_declarations': [f'{d[3]} {unparse(d[2])[:40]}' for d in armed][:8],
                                               'descriptor_classes': [u.rsplit('.', 1)[1] for u in users][:8]})
-    ctx.floor('C12.R1', len(seen), 25, 'descriptor methods analysed')
+    ctx.floor(rule, len(seen), 25, 'descriptor methods analysed')
+    return desc_classes
+
+
+def run(ctx):  # noqa: C901, PLR0912
+    repo = ctx.repo
+    ctx.rule('C12.R1', 'NO-ESCAPE: class-level default/implied objects reach instances only through copy.deepcopy '
+                       '(armed where a declaration passes a mutable value)')
+    ctx.rule('C12.R2', 'no mutable class attributes / default arguments on data classes; lazy lists live on the instance')
+    ctx.rule('C12.R3', 'mk_copy is a deep copy')
+    desc_classes = defaults_reach_instances_copied(ctx, 'C12.R1')
 
     # ------------------------------------------------------------------ R2
     n_cls = 0
@@ -235,6 +250,7 @@ def run(ctx):  # noqa: C901, PLR0912
     from . import common
     common.entity_getters_hand_out_copies(ctx, 'C12.R3')
     common.copies_are_deep(ctx, 'C12.R3', with_mk_copy=False)
+    common.written_entities_are_copied(ctx, 'C12.R3')
     # ------------------------------------------------------------------ R3
     mk = repo.func('sdc11073.mdib.containerbase.ContainerBase.mk_copy')
     deep, why = _mk_copy_is_deep(mk)
